@@ -172,6 +172,7 @@ type State struct {
 	pendingHavoc []havocRec
 	volatile     []func(string) bool
 	volatileAll  bool
+	heldLocks    []string            // "key|ref" of locks acquired on some path to here (checked precisely by SMT)
 	private      map[string][]string // type key -> references allocated by this activation and not yet published
 	cases        []string // path conditions of the states joined at the most recent merge (exhaustive under pc)
 }
@@ -182,6 +183,7 @@ func (s *State) clone() *State {
 	n.volatile = append([]func(string) bool(nil), s.volatile...)
 	n.volatileAll = s.volatileAll
 	n.cases = s.cases
+	n.heldLocks = append([]string(nil), s.heldLocks...)
 	if s.private != nil {
 		n.private = make(map[string][]string, len(s.private))
 		for k, v := range s.private {
